@@ -99,30 +99,9 @@ fn gen_rule(rng: &mut Rng, fam: usize, res: &[String], id: String) -> AnySpec {
     }
 }
 
-/// A logger as an application would install one: every record the library emits is formatted (so
-/// that the `Display`/`Debug` impls used in log statements run) and then discarded.
-struct FormattingSink;
-impl log::Log for FormattingSink {
-    fn enabled(&self, _m: &log::Metadata) -> bool {
-        true
-    }
-    fn log(&self, record: &log::Record) {
-        let text = format!("{}", record.args());
-        std::hint::black_box(text.len());
-    }
-    fn flush(&self) {}
-}
-
 impl Prop for C12 {
     fn id(&self) -> &'static str {
         "C12"
-    }
-    fn extra_warm_up(&self) {
-        // process-wide, once per worker / replay process
-        static SINK: FormattingSink = FormattingSink;
-        if log::set_logger(&SINK).is_ok() {
-            log::set_max_level(log::LevelFilter::Trace);
-        }
     }
     fn gap_ns(&self) -> u64 {
         // long throttling waits (up to 600 s each) are virtual
